@@ -343,6 +343,11 @@ type hres struct {
 	OldEv     int    `json:"old_ev"`
 	Harness   string `json:"harness,omitempty"`
 	Undecided string `json:"undecided,omitempty"`
+	// the first wrong OUTCOME of a later invocation after a rest-state finding
+	Follow         string `json:"follow,omitempty"`
+	FollowVictim   int    `json:"follow_victim,omitempty"`
+	FollowAPI      string `json:"follow_api,omitempty"`
+	FollowPreceded string `json:"follow_preceded,omitempty"`
 }
 
 func setupSource(kind string, x int) string {
@@ -553,23 +558,30 @@ func runHistory(h *history) (res hres) {
 		}
 		st.Mismatch = compare(&st.Got, &st.Want)
 		steps = append(steps, st)
-		if st.Mismatch != "" && res.Symptom == "" {
-			res.Symptom = st.Mismatch
-			res.Victim = i + 1
-			res.API = v.API
+		if st.Mismatch != "" {
+			preceded := behClass(prevBeh)
 			switch {
 			case v.OldWhen == "during" && plan.oldCancel != nil:
-				res.Preceded = "old-context-cancelled-during-run"
+				preceded = "old-context-cancelled-during-run"
 			case v.OldWhen == "before":
-				res.Preceded = "old-context-cancelled-before-run"
-			default:
-				res.Preceded = behClass(prevBeh)
+				preceded = "old-context-cancelled-before-run"
 			}
-			if st.Mismatch == "harness" {
-				res.Harness = st.Got.Harness + " / " + st.Want.Harness
+			restOnly := st.Mismatch == "frames-not-unwound" || st.Mismatch == "stack-not-restored" || st.Mismatch == "still-running"
+			if res.Symptom == "" {
+				res.Symptom, res.Victim, res.API, res.Preceded = st.Mismatch, i+1, v.API, preceded
+				if st.Mismatch == "harness" {
+					res.Harness = st.Got.Harness + " / " + st.Want.Harness
+				}
+				if !restOnly {
+					// the state of the VM is now unknown; what follows would only repeat the finding
+					break
+				}
+				// the invocation's result was right but the VM was not left at rest: go on, to see
+				// what this does to the invocations that follow
+			} else if !restOnly {
+				res.Follow, res.FollowVictim, res.FollowAPI, res.FollowPreceded = st.Mismatch, i+1, v.API, preceded
+				break
 			}
-			// the state of the VM is now unknown; what follows would only repeat the finding
-			break
 		}
 		prevBeh = v.Beh
 	}
@@ -852,6 +864,13 @@ func judgeAll(d *mon.Driver, hs []history, o mon.PoolOpts, per int, pass string)
 				fmt.Printf("DEBUG %s\n%s\n", sig, describe(h, r))
 			}
 			d.Violation(sig, describe(h, r), hh)
+			if r.Follow != "" {
+				sig2 := fmt.Sprintf("history:%s:%s:%s", r.FollowAPI, r.FollowPreceded, r.Follow)
+				h2 := *h
+				h2.Invs = h2.Invs[:r.FollowVictim]
+				sigCount[sig2]++
+				d.Violation(sig2, describe(h, r), h2)
+			}
 		}
 	})
 	if pass == "race" {
